@@ -18,6 +18,7 @@ mod c15;
 mod c16;
 mod c17;
 mod c18;
+mod c20;
 mod gen;
 mod prog;
 mod lex;
@@ -111,6 +112,7 @@ fn table(prop: &str) -> Option<(RunFn, ReplayFn)> {
         "C16" => (c16::run, c16::replay),
         "C17" => (c17::run, c17::replay),
         "C18" => (c18::run, c18::replay),
+        "C20" => (c20::run, c20::replay),
         _ => return None,
     })
 }
